@@ -29,7 +29,7 @@ PROJ_U = {
     "C08": {1, 2, 3, 8, 15, 17}, "C18": {5, 11, 12, 13, 16}, "C17": {3, 4}, "C09": {8, 15, 17, 10},
 }
 PROJ_L = {
-    "C04": {24}, "C05": {7, 8, 9, 24}, "C06": {17, 24}, "C07": {0, 1, 4, 5, 20, 24}, "C08": {24}, "C18": {17, 24}, "C17": {24},
+    "C04": {24}, "C05": {7, 8, 9, 24}, "C06": {4, 5, 17, 24}, "C07": {0, 1, 4, 5, 20, 24}, "C08": {24}, "C18": {4, 5, 17, 24}, "C17": {24},
     "C09": {5, 7, 8, 9, 12, 13, 14, 15, 16, 24},
 }
 
@@ -51,7 +51,7 @@ def project(prop, res):
     if prop == "C07":
         # the follow-up action is read off the signals created / enqueued / dropped and the handlers' ends; the SOURCE of
         # a new signal is not C07's business (and differs for PasswordDialog's own blocking request: AdvWidgets.v, gap G3)
-        tr = [e[:4] if e[0] == 20 else e for e in tr]
+        tr = [e[:4] if (e[0] == 20 and e[2] != 1) else e for e in tr]      # render signals keep their source (chk_C07 reads it)
     return [res[0], tr, res[2], res[3]]
 
 
